@@ -136,7 +136,7 @@ def stencil_obligations(R, FDm):
                  replay=lambda o, p=p: native_poly_replay(p, 'no boundary'))
 
 
-def run_operator(cls, FDm, order, mode, axis, nmin, rank=0, wrapper=None):
+def run_operator(cls, FDm, order, mode, axis, nmin, rank=0, wrapper=None, dtype='float'):
     """symbolic execution of the real d3x/d3y/d3z (or a tensor wrapper) for all N >= nmin.
     -> (all_valid, failures, n_obligations, secs, undecided)"""
     names = ['Nx', 'Ny', 'Nz']
@@ -151,7 +151,7 @@ def run_operator(cls, FDm, order, mode, axis, nmin, rank=0, wrapper=None):
             c.assume(d >= (nmin if (ax == axis or all_axes) else 1))
         fd, real = make_fd(cls, FDm, order, mode, dims)
         lead = (3,) * rank
-        f, F = base_array('F', lead + tuple(dims))
+        f, F = base_array('F', lead + tuple(dims), dtype)
         meth = wrapper or ['d3x', 'd3y', 'd3z'][axis]
         out = getattr(fd, meth)(f)
         # shape
@@ -179,8 +179,10 @@ def run_operator(cls, FDm, order, mode, axis, nmin, rank=0, wrapper=None):
         paths = explore(run)
     except SX.PathAbort as e:
         return False, [], 0, time.time() - t0, [f'PathAbort: {e}']
-    except IndexError as e:
-        return False, [('raises', f'IndexError: {e}', None)], 1, time.time() - t0, []
+    except (IndexError, TypeError, ValueError, AttributeError, KeyError) as e:
+        if SX.raised_in_code_under_test(e):
+            return False, [('raises', f'{type(e).__name__}: {e}', None)], 1, time.time() - t0, []
+        return False, [], 0, time.time() - t0, [f'outside the modelled subset ({type(e).__name__} raised inside a library / the array shim on a symbolic array): {e}']
     for res, c in paths:
         for name, goal, pc in c.obls:
             nob += 1
@@ -190,6 +192,20 @@ def run_operator(cls, FDm, order, mode, axis, nmin, rank=0, wrapper=None):
             elif v == 'unknown':
                 undec.append(f'{name}: {model}')
     return (not fails and not undec), fails, nob, time.time() - t0, undec
+
+
+def native_int_replay(p, mode, axis):
+    """the real operators on an int64 field against the same field cast to float"""
+    import aurel
+    rng = np.random.default_rng(3)
+    fd = aurel.FiniteDifference(dict(Nx=11, Ny=12, Nz=13, xmin=0., ymin=0., zmin=0., dx=0.5, dy=0.25, dz=1.0), boundary=mode, fd_order=p, verbose=False)
+    fi = rng.integers(-50, 50, size=(11, 12, 13)).astype(np.int64)
+    op = [fd.d3x, fd.d3y, fd.d3z][axis]
+    a, b = np.asarray(op(fi), dtype=float), np.asarray(op(fi.astype(float)), dtype=float)
+    err = float(np.max(np.abs(a - b)))
+    idx = np.unravel_index(int(np.argmax(np.abs(a - b))), a.shape)
+    return err > 1e-9, (f'real d3{"xyz"[axis]} (order {p}, {mode}) on an int64 field vs the same field as float64: max difference {err:.3e} at index {tuple(int(i) for i in idx)} '
+                        f'(int input gives {a[idx]!r}, float input {b[idx]!r})')
 
 
 def native_poly_replay(p, mode, axes=(0, 1, 2)):
@@ -310,6 +326,16 @@ def run(R):
                      '' if okv else ('; '.join(undec) or '; '.join(f'{a}: {b}' for a, b, _ in fails[:3])),
                      None if okv else [f[0] for f in fails],
                      replay=lambda o, p=p, mode=mode, axis=axis: native_poly_replay(p, mode, (axis,)))
+    # integer-dtype input fields (index arrays, masks): the derivative is the same real linear combination, not truncated
+    for mode in MODES:
+        for axis in (0, 1, 2):
+            p = 4
+            nm = nmins.get((p, mode)) or 2 * p
+            okv, fails, nob, secs, undec = run_operator(cls, FDm, p, mode, axis, nm, dtype='int')
+            st = 'discharged' if okv else ('undecided' if undec and not fails else 'refuted')
+            R.ob(f'fd.d3{"xyz"[axis]}[order={p},{mode}, integer-dtype field]:same real-valued derivative (no truncation to the input dtype)', 'd3' + 'xyz'[axis], st, 'z3', secs,
+                 '' if okv else ('; '.join(undec) or '; '.join(f'{a}: {b}' for a, b, _ in fails[:3])),
+                 None if okv else [f[0] for f in fails], replay=lambda o, mode=mode, axis=axis: native_int_replay(4, mode, axis))
     # tensor wrappers
     for wrapper, rank in [('d3_scalar', 0), ('d3_rank1tensor', 1), ('d3x_rank1tensor', 1), ('d3y_rank1tensor', 1),
                           ('d3z_rank1tensor', 1), ('d3_rank2tensor', 2), ('d3x_rank2tensor', 2), ('d3y_rank2tensor', 2),
